@@ -176,6 +176,13 @@ class Stream(object):
 
         response.parse(b''.join(header_lines))
 
+        if response.status_code and 100 <= response.status_code < 200 \
+                and response.status_code != 101:
+            # An interim response (100 Continue, 103 Early Hints, ...): the
+            # final response to this request follows. rfc7231 section 6.2.
+            _logger.debug('Skipping interim response.')
+            response = yield from self.read_response()
+
         return response
 
     @asyncio.coroutine
